@@ -48,21 +48,38 @@ RootCallVerdict(c) == Combine({RootArgVerdict(c.rkeys), RootArgVerdict(c.rthr), 
                                ArgVerdict("ver", c.ver), ArgVerdict("ts", c.ts), ArgVerdict("exp", c.exp)})
 RootAllowed(c) == IF RootCallVerdict(c) = R THEN {"ArgumentError"} ELSE IF RootCallVerdict(c) = U THEN {"ArgumentError", "built"} ELSE {"built"}
 
+(* The clock: default dates are read from it.  Whatever the instant (leap days, month and year ends, the last second of a day, the      *)
+(* epoch, 2038, the last years four digits can hold), the default timestamp is that instant and the default expiration lies one year  *)
+(* later: 365 or 366 days (a fixed distance and "same date next year" both qualify), never less, never more.                          *)
+IsLeap(y) == (y % 4 = 0 /\ y % 100 # 0) \/ y % 400 = 0
+DaysIn(y, m) == IF m = 2 THEN (IF IsLeap(y) THEN 29 ELSE 28) ELSE IF m \in {4, 6, 9, 11} THEN 30 ELSE 31
+ClockYears == {1970, 1999, 2000, 2023, 2024, 2027, 2028, 2037, 2038, 2099, 2100, 9997, 9998}
+ClockDays == {<<1, 1>>, <<2, 28>>, <<2, 29>>, <<3, 1>>, <<6, 15>>, <<12, 30>>, <<12, 31>>}
+ClockSeconds == {0, 1, 43200, 86399}
+ExpiryWindow == IF MUTANT = "expiry_any" THEN 1..366 ELSE 365..366
+ExpiryAboutOneYear == \A d \in ExpiryWindow : d >= 365 /\ d <= 366
+
 Init == /\ pc = "new"
-        /\ \/ \E ty \in ArgClasses("type"), dg \in ArgClasses("deleg"), v \in ArgClasses("ver"), t \in ArgClasses("ts"), e \in ArgClasses("exp") :
+        /\ \/ \E y \in ClockYears, md \in ClockDays, sec \in ClockSeconds :
+                /\ md[2] <= DaysIn(y, md[1])
+                /\ case = [fn |-> "clock", y |-> y, m |-> md[1], d |-> md[2], s |-> sec]
+           \/ \E ty \in ArgClasses("type"), dg \in ArgClasses("deleg"), v \in ArgClasses("ver"), t \in ArgClasses("ts"), e \in ArgClasses("exp") :
                 /\ Cardinality({x \in {dg, v, t, e} : x \notin {Default, "ok", "ok1", "two_ok", "empty"}}) <= MaxCorrupt   \* bound on simultaneously corrupted arguments
                 /\ case = [fn |-> "deleg", type |-> ty, deleg |-> dg, ver |-> v, ts |-> t, exp |-> e]
            \/ \E rk \in RootArgClasses("rkeys"), rt \in RootArgClasses("rthr"), kk \in RootArgClasses("kkeys"), kt \in RootArgClasses("kthr"),
                  v \in {"ok1", "ok_huge", "zero", "inf", "str", "bool"}, t \in {Default, "ok", "noZ", "nonstr"}, e \in {Default, "ok", "trailing"} :
                 case = [fn |-> "root", rkeys |-> rk, rthr |-> rt, kkeys |-> kk, kthr |-> kt, ver |-> v, ts |-> t, exp |-> e]
 Emit == /\ pc = "new" /\ pc' = "done" /\ UNCHANGED case
-        /\ PrintT("@@" \o ToJson(IF case.fn = "deleg"
+        /\ PrintT("@@" \o ToJson(IF case.fn = "clock" THEN [case |-> case, allowed |-> {"built"}, min_days |-> 365, max_days |-> 366,
+                                                             leap |-> IsLeap(case.y), next_leap |-> IsLeap(case.y + 1)]
+                                   ELSE IF case.fn = "deleg"
                                    THEN [case |-> case, allowed |-> Allowed(case), built |-> Built(case),
                                          checker |-> IF CallVerdict(case) = A THEN Accepts(Built(case)) ELSE "n/a"]
                                    ELSE [case |-> case, allowed |-> RootAllowed(case)]))
 Next == Emit
 
 (* whatever the builder returns for well-formed arguments of a supported type passes the schema *)
+ClockInv == case.fn = "clock" => ExpiryAboutOneYear
 BuiltIsValid == (case.fn = "deleg" /\ CallVerdict(case) = A /\ case.type \in {"root", "key_mgr"}) => Accepts(Built(case)) = A
 (* and nothing else does: a corrupted argument can never yield schema-valid metadata *)
 CorruptNeverValid == (case.fn = "deleg" /\ CallVerdict(case) = R /\ case.type # "nonstr") => Accepts(Built(case)) = R
